@@ -331,17 +331,22 @@ PROPS = {
                        'for loop tests; the Vec / Tuple / Range / String cursors yield the element at the cursor and then advance by '
                        'exactly one element; the for statement is desugared in the order the protocol needs (iter once, then per '
                        'iteration next / bind / test / body / loop), with the loop header recorded before the fetch so that '
-                       '`continue` fetches the next element. The adapters map / filter / reduce / collect are Yarel source in '
-                       'core.yl and are not analysed.'
+                       '`continue` fetches the next element. Since round 9 the adapters are analysed too, as far as their protocol goes: the '
+                       'Yarel source the interpreter compiles at start-up (the value of class_store::CORE_SOURCE in the type-checked '
+                       'program) is parsed by a small front end (rules/yarel_ast.py; anything it does not know is CHECK-BROKEN) and '
+                       'rules/core_yl.py decides Q8a next() is only called on the result of an iter() call or on an object whose class '
+                       'defines next(), Q8b iter() - written or implied by for-in - is never applied to the result of an iter() call, '
+                       'Q8c a fetched value reaches the program\'s function only where it is known not to be the end marker, Q8d a fetched '
+                       'value is never dropped unused, Q8f every iterator class of the core source is its own iterator.'
                        ' Round 5: Q6 IterNext dispatches through Vm::invoke; E4 also runs here.'
                        ' Round 7: Q7 derives() starts at get_class(receiver) for every kind of receiver; P10 and U5 also run here. Round 8: Q1 (the iterator a successful iter() returns is the one just allocated; the earlier test was vacuous), Q2 sibling clause (JumpIfStopIter walks the ancestry like derives()), Q4 (every instruction of the for desugaring is emitted unconditionally), P10 for cursor-derived indexes anywhere.',
         'assumptions': COMMON_ASSUME,
-        'not_decided': ['map / filter / reduce / collect results (Yarel source, outside the analysed program)',
+        'not_decided': ['map / filter / reduce / collect results beyond the protocol clauses Q8a-Q8f (what the adapters compute is a run-time value)',
                         'user-defined iterator classes', 'that the sequence of yielded values equals the model sequence (a run-time statement)'],
-        'level_text': 'Decides Q1-Q4, necessary conditions of the iteration protocol on the Rust side; says nothing about the adapters.',
+        'level_text': 'Decides Q1-Q7, necessary conditions of the iteration protocol on the Rust side, and Q8a-Q8f, the protocol typestate of the adapters written in Yarel.',
         'design_ref': 'DESIGN.md section 3a.8',
         'level_note': 'Trusted: rustc front end + MIR, the extractor. A narrow fragment: see not_decided.',
-        'technique': 'cursor-update shape + sentinel agreement + emission-order rules over resolved MIR (rustc_private driver)',
+        'technique': 'cursor-update shape + sentinel agreement + emission-order rules over resolved MIR (rustc_private driver); protocol typestate (kinds fixpoint + path facts) over the parsed core source',
     },
     'C19': {
         'module': 'c19',
